@@ -5,6 +5,7 @@ import (
 	"go/ast"
 	"go/constant"
 	"go/token"
+	"go/types"
 	"sort"
 	"strings"
 
@@ -225,6 +226,11 @@ func c11StringLengths(c *cx, id string) {
 						fail = "unsupported assignment target " + c.p.NodeStr(l)
 						return e, false
 					}
+					if t := f.Info().TypeOf(s.Rhs[i]); t != nil {
+						if b, isB := t.Underlying().(*types.Basic); isB && b.Info()&types.IsBoolean != 0 {
+							continue // a named condition: looked through at the branch
+						}
+					}
 					if t := f.Info().TypeOf(s.Rhs[i]); t != nil && eng.TypeStr(t) == "string" {
 						a, ok := lenOf(e, s.Rhs[i])
 						if !ok {
@@ -242,7 +248,7 @@ func c11StringLengths(c *cx, id string) {
 					e.ints[idn.Name] = a
 				}
 			case *ast.IfStmt, *ast.SwitchStmt:
-				cond, ibody, ielse, isIf := asIf(st)
+				cond, ibody, ielse, isIf := asIfIn(f, st)
 				if !isIf {
 					fail = "unsupported branch statement at " + c.p.Pos(s.Pos())
 					return e, false
